@@ -201,14 +201,14 @@ type defCase struct {
 	Ambig   int    `json:"ambig"`
 	// Perm defines an involution on the definition: letter i is paired with
 	// letter Perm[i] (Perm[Perm[i]] == i); nil: plain alphabet.
-	Perm   []int `json:"perm,omitempty"`
-	Probe  []int `json:"probe"` // letter slice for AllValid
+	Perm  []int `json:"perm,omitempty"`
+	Probe []int `json:"probe"` // letter slice for AllValid
 	// LongN > 0: a second AllValid slice of LongN letters (1000..2100): the definition's letters
 	// cycled, with the letters of LongBad (position, letter value) written over them
 	LongN   int      `json:"long_n,omitempty"`
 	LongBad [][2]int `json:"long_bad,omitempty"`
-	Mol    int8  `json:"mol"`
-	WithCo bool  `json:"complementor"`
+	Mol     int8     `json:"mol"`
+	WithCo  bool     `json:"complementor"`
 }
 
 func genDef(t *rapid.T) defCase {
